@@ -37,6 +37,14 @@ pub fn reduce_impl(ctx: &Interpreter, this: CelValue, bytecode: &[&CelByteCode])
                     Ok(val) => val,
                     Err(err) => return err.into(),
                 };
+
+                // every step may wrap the accumulator once more (`[acc]`); an unbounded
+                // nesting would overflow the stack when the value is cloned or dropped
+                if cur_value.nested_deeper_than(CelValue::MAX_NESTING) {
+                    return CelValue::from_err(CelError::value(
+                        "reduce() accumulator is nested too deeply",
+                    ));
+                }
             }
 
             cur_value
